@@ -320,8 +320,10 @@ pub struct Want {
     pub renders: bool,
     /// render a second time on the same thread (std bumps the hash key per map)
     pub render_twice: bool,
-    /// observe through the public API (unsorted and by-name)
+    /// observe through the public API (unsorted rendering)
     pub obs: bool,
+    /// also observe with sort-by-name rendering (C09 only: it doubles the cost)
+    pub obs_sorted: bool,
 }
 
 #[derive(Clone, Debug)]
@@ -414,7 +416,7 @@ fn run_replica_here(session: &Session, r: &Replica, want: &Want) -> Vec<StepOut>
                     }
                 }
                 let obs = if want.obs { Some(observe(t, true, SortBy::Unsorted)) } else { None };
-                let obs_sorted = if want.obs { Some(observe(t, true, SortBy::XmlName)) } else { None };
+                let obs_sorted = if want.obs_sorted { Some(observe(t, true, SortBy::XmlName)) } else { None };
                 (api, renders, renders2, obs, obs_sorted)
             }));
             match r {
